@@ -51,8 +51,8 @@ type wsCase struct {
 	// in a delivered payload then proves a read after free. Off as soon as the
 	// input holds a protocol violation (wrong masking or bytes that are no
 	// deflate stream can legitimately turn into any byte).
-	Scan bool `json:"scan_payloads_for_poison,omitempty"`
-	Sends     []wsSend    `json:"sends,omitempty"`
+	Scan  bool     `json:"scan_payloads_for_poison,omitempty"`
+	Sends []wsSend `json:"sends,omitempty"`
 }
 
 type wsState struct {
@@ -85,7 +85,9 @@ func (w *worker) wsDelivered(what string, p *[]byte) {
 		return
 	}
 	b := *p
-	w.ga.CheckLive(b, "freed-buffer-delivered-to-"+what)
+	if !w.ga.CheckLive(b, "freed-buffer-delivered-to-"+what) && w.ga.FaultMode() {
+		return // the bytes are inaccessible
+	}
 	st.delivered += len(b)
 	// data frames of compressed messages are delivered compressed: any byte may occur
 	if st.scan && !(what == "on-data-frame" && st.wc.Compression) {
@@ -333,7 +335,9 @@ type wrapConn struct {
 }
 
 func (c *wrapConn) Write(b []byte) (int, error) {
-	c.w.ga.CheckLive(b, "freed-buffer-handed-to-conn-write")
+	if !c.w.ga.CheckLive(b, "freed-buffer-handed-to-conn-write") && c.w.ga.FaultMode() {
+		return len(b), nil // the bytes are inaccessible
+	}
 	return c.Conn.Write(b)
 }
 
